@@ -29,7 +29,7 @@ func fieldOf(info *types.Info, e ast.Expr) *types.Var {
 
 // isField reports whether v is field `name` of the named struct type `typ` in package with name pkgName.
 func isField(v *types.Var, pkgName, typ, name string) bool {
-	if v == nil || !v.IsField() || v.Name() != name || v.Pkg() == nil || v.Pkg().Name() != pkgName {
+	if v == nil || !v.IsField() || canonName(v) != name || v.Pkg() == nil || v.Pkg().Name() != pkgName {
 		return false
 	}
 	// find the named type in the package scope and compare field identity
